@@ -375,7 +375,7 @@ def run(ctx):
         good = [r for r in trace if r["op"] in ("inter", "diff")][:40]
         f_demo = jobs.submit(ctx.binding_demo, tmod, tcfg, good, corrupt)
         # ---- spec -> code
-        nval = 4 if ctx.thorough else 2
+        nval = 3 if ctx.thorough else 2
         small_size = 5 if ctx.thorough else 4
         ncalls = 0
         exports = [(f_exp, nval)]
